@@ -176,10 +176,10 @@ impl MT204 {
         let sum_of_transactions = self.calculate_sum_of_transactions();
         let field_19_amount = self.sum_of_amounts.amount;
 
-        // Use a small epsilon for floating-point comparison (0.01 = 1 cent)
+        // Half a cent absorbs floating-point noise; a difference of one cent is a mismatch
         let difference = (field_19_amount - sum_of_transactions).abs();
 
-        if difference > 0.01 {
+        if difference > 0.005 {
             return Some(SwiftValidationError::content_error(
                 "C01",
                 "19",
